@@ -115,10 +115,16 @@ def _v(fn):
     return lambda x: float(fn(np.array([x]))[0])
 
 
+def _vT(fn):
+    """the vectorised function on a 2-D array that is not C-contiguous (a transposed table of angles)"""
+    return lambda x: float(np.asarray(fn(np.array([[x, 1.0], [x, 2.0]]).T))[0, 0])
+
+
 HOPS = {
     'dec2hp': ('dec', 'hp', A.dec2hp), 'dec2hpa': ('dec', 'HP', A.dec2hpa), 'dec2gon': ('dec', 'gon', A.dec2gon),
     'dec2gona': ('dec', 'GON', A.dec2gona), 'dec2dms': ('dec', 'DMS', A.dec2dms), 'dec2ddm': ('dec', 'DDM', A.dec2ddm),
     'DECAngle': ('dec', 'DEC', A.DECAngle), 'dec2hp_v': ('dec', 'hp', _v(A.dec2hp_v)), 'dd2sec': ('dec', 'sec', A.dd2sec),
+    'dec2hp_v[transposed 2-D array]': ('dec', 'hp', _vT(A.dec2hp_v)), 'hp2dec_v[transposed 2-D array]': ('hp', 'dec', _vT(A.hp2dec_v)),
     'hp2dec': ('hp', 'dec', A.hp2dec), 'hp2deca': ('hp', 'DEC', A.hp2deca), 'hp2rad': ('hp', 'rad', A.hp2rad),
     'hp2gon': ('hp', 'gon', A.hp2gon), 'hp2gona': ('hp', 'GON', A.hp2gona), 'hp2dms': ('hp', 'DMS', A.hp2dms),
     'hp2ddm': ('hp', 'DDM', A.hp2ddm), 'HPAngle': ('hp', 'HP', A.HPAngle), 'hp2dec_v': ('hp', 'dec', _v(A.hp2dec_v)),
@@ -129,7 +135,8 @@ HOPS = {
 METHODS = {'rad': 'rad', 'dec': 'dec', 'deca': 'DEC', 'hp': 'hp', 'hpa': 'HP', 'gon': 'gon', 'gona': 'GON',
            'dms': 'DMS', 'ddm': 'DDM'}
 NOMETHOD = {'DEC': 'deca', 'HP': 'hpa', 'GON': 'gona', 'DMS': 'dms', 'DDM': 'ddm'}
-HP_TAKING = ['hp2dec', 'hp2deca', 'hp2rad', 'hp2gon', 'hp2gona', 'hp2dms', 'hp2ddm', 'HPAngle', 'hp2dec_v']
+HP_TAKING = ['hp2dec', 'hp2deca', 'hp2rad', 'hp2gon', 'hp2gona', 'hp2dms', 'hp2ddm', 'HPAngle', 'hp2dec_v',
+             'hp2dec_v[transposed 2-D array]']
 
 
 def hops_from(note):
@@ -277,6 +284,10 @@ def object_inputs(note, v, T, inp):
 
 def test_point(acc, rng, note, v, T, inp, pairs=False, chains=0):
     all_hops(acc, note, v, T, inp, 2 if pairs else 1)
+    if isinstance(v, float) and not isinstance(v, np.floating) and rng.random() < 0.3:
+        # the same number as a numpy scalar (what an element of an array is; numpy.float64 is a float): the same angle is due,
+        # within the property's tolerance (numpy rounds and compares in its own way, so bit-identity is not demanded)
+        all_hops(acc, note, np.float64(v), T, inp + ' [as numpy.float64]', 2 if (pairs and rng.random() < 0.3) else 1)
     for k, o, To, io in object_inputs(note, v, T, inp):
         all_hops(acc, k, o, To, io, 2 if pairs else 1)
     for _ in range(chains):
